@@ -1,3 +1,4 @@
+import Oidc.Proofs.CodeConfig
 import Oidc.Proofs.CodeVerify
 import Oidc.Shapes
 import Oidc.Proofs.Limiter2
@@ -137,5 +138,12 @@ theorem code_cached_unlimited {σ : Type} (ops : Go.VOps σ) (now : Int) (t : Go
     | nil => exact absurd rfl hne
     | cons a l => simp
   simp only [hlen, Bool.and_self, if_true]
+
+
+/-! ### the configuration gate, translated from settings.go on every run -/
+
+/-- a configuration `Config.Validate` accepts has a rate limit of at least 10 per second (the bucket is never empty by configuration) -/
+theorem code_validated_rate_limit (c : Go.Config) (h : Oidc.Generated.Code.Config_Validate c = none) :
+    (10 : Int) ≤ c.RateLimit := (Oidc.CodeConfig.Validate_none c h).rate
 
 end Oidc.Props.C19
